@@ -370,11 +370,21 @@ def r06_5(q, R, spec):
         return
     vis = adt["variants"][0]["fields"][0].get("vis")
     sites = []
+    NS = "quill::tree::names::Namespace"
+
+    def is_ns_ctor(r):
+        """resolution record of the tuple constructor: `Namespace` (def Ctor) or `Self` inside an impl of Namespace"""
+        if r.get("r") == "selfctor":
+            return (r.get("adt") or "").split("<")[0] == NS
+        return r.get("dk", "").startswith("Ctor") and r.get("adt") == NS
+
     for b in q.bodies:
         for n in H.walk(b["body"]):
-            c = n.get("callee") or {}
-            if (n.get("k") == "call" and c.get("dk", "").startswith("Ctor") and c.get("adt") == "quill::tree::names::Namespace") or \
-               (n.get("k") == "struct" and n.get("adt") == "quill::tree::names::Namespace"):
+            # every way to make a Namespace value from an index: the constructor called (`Namespace(i)`, `Self(i)`), the
+            # constructor used as a function value (`.map(Namespace)`, `let f = Namespace;`), a struct literal (`Namespace { 0: i }`)
+            if (n.get("k") == "call" and is_ns_ctor(n.get("callee") or {})) or \
+               (n.get("k") == "path" and is_ns_ctor(n.get("res") or {})) or \
+               (n.get("k") == "struct" and (n.get("adt") or "").split("<")[0] == NS):
                 sites.append((b, n))
             if n.get("k") in ("assign", "assignop"):
                 l = H.peel(n["l"])
